@@ -74,6 +74,8 @@ impl<T: Sc> Env<T> {
             a.iter().map(|v| v * sc.start).collect::<Vec<f64>>(),
             a.iter().enumerate().map(|(k, v)| v * (1.1 + 0.1 * k as f64)).collect(),
             a.iter().enumerate().map(|(k, v)| v * (0.8 - 0.05 * k as f64)).collect(),
+            // a vector of the wrong length (one entry too many): every model rejects it while the parameters are applied
+            a.iter().map(|v| v * 1.05).chain(std::iter::once(1.0)).collect(),
         ];
         Env { spec, y: mat_t(&y), w: sc.w.make(sc.n).map(|w| vec_t::<T>(&w)), api: if sc.s == 1 { Api::Single } else { Api::Mrhs }, alphas, fresh: Default::default() }
     }
@@ -194,7 +196,7 @@ fn run_script<T: Sc>(env: &Env<T>, sc: &Scen, phase: Phase, hist: &[usize], plan
                 for (step, &ai) in hist.iter().enumerate() {
                     let f1 = plan.fired().len();
                     p.set(&vec_t::<T>(&env.alphas[ai]));
-                    let failed = plan.fired().iter().skip(f1).any(|(_, k)| *k == "set_params" || *k == "eval");
+                    let failed = plan.fired().iter().skip(f1).any(|(_, k)| *k == "set_params" || *k == "eval") || env.alphas[ai].len() != sc.fam.p();
                     checked_observe(env, sc, p.as_ref(), &plan, Some(failed), &mut o, &format!("after set_params #{} (alpha {})", step, ai));
                 }
             }
